@@ -155,6 +155,92 @@ pub fn gif_with_ext() -> Vec<u8> {
     v
 }
 
+/// JPEG with a DRI segment and TEN restart intervals: RST0..RST7, then RST0, RST1 again (the marker range wraps),
+/// a few entropy bytes between them, with a stuffed FF 00 before and after the first RST7.
+pub fn jpeg_rst_many() -> Vec<u8> {
+    let base = jpeg();
+    let sos = base.windows(2).position(|w| w == [0xFF, 0xDA]).unwrap();
+    let mut v = base[..sos].to_vec();
+    v.extend_from_slice(&[0xFF, 0xDD, 0x00, 0x04, 0x00, 0x01]); // DRI, restart interval 1
+    v.extend_from_slice(&base[sos..base.len() - 2]); // SOS header + first entropy bytes
+    for i in 0..10u8 {
+        v.extend_from_slice(&[0xFF, 0xD0 + (i % 8)]);
+        match i {
+            3 => v.extend_from_slice(&[0x31, 0xFF, 0x00, 0x32]),
+            8 => v.extend_from_slice(&[0x81, 0xFF, 0x00, 0x82, 0x83]),
+            _ => v.extend_from_slice(&[0x10 + i, 0x20 + i, 0x30 + i]),
+        }
+    }
+    v.extend_from_slice(&[0xFF, 0xD9]);
+    v
+}
+
+/// JPEG with one segment of many marker kinds: APP1 (Exif), APP2, APP13, APP14, APP15, COM, DRI.
+pub fn jpeg_segs() -> Vec<u8> {
+    fn seg(m: u8, d: &[u8]) -> Vec<u8> { let mut v = vec![0xFF, m]; v.extend_from_slice(&((d.len() + 2) as u16).to_be_bytes()); v.extend_from_slice(d); v }
+    let base = jpeg();
+    let sos = base.windows(2).position(|w| w == [0xFF, 0xDA]).unwrap();
+    let mut v = base[..20].to_vec();
+    v.extend(seg(0xE1, b"Exif\0\0II*\0\x08\0\0\0\0\0\0\0\0\0"));
+    v.extend(seg(0xE2, b"ICC_PROFILE\0\x01\x01abcd"));
+    v.extend(seg(0xED, b"Photoshop 3.0\08BIM"));
+    v.extend(seg(0xEE, b"Adobe\0\x64\0\0\0\0\0"));
+    v.extend(seg(0xEF, b"last-app"));
+    v.extend(seg(0xFE, b"a comment"));
+    v.extend_from_slice(&base[20..sos]);
+    v.extend(seg(0xDD, &[0, 0]));
+    v.extend_from_slice(&base[sos..]);
+    v
+}
+
+/// PNG with ancillary chunks before and after the image data and the image data split over three IDAT chunks.
+pub fn png_multi_idat() -> Vec<u8> {
+    let base = png();
+    let idat = [0x78u8, 0x01, 0x01, 0x02, 0x00, 0xFD, 0xFF, 0x00, 0x55, 0x00, 0x57, 0x00, 0x56];
+    let mut v = base[..33].to_vec();
+    v.extend(png_chunk(b"gAMA", &[0, 0, 0xB1, 0x8F]));
+    v.extend(png_chunk(b"IDAT", &idat[..5]));
+    v.extend(png_chunk(b"IDAT", &idat[5..9]));
+    v.extend(png_chunk(b"IDAT", &idat[9..]));
+    v.extend(png_chunk(b"tEXt", b"Comment\0after"));
+    v.extend(png_chunk(b"tIME", &[7, 0xEA, 1, 2, 3, 4, 5]));
+    v.extend(png_chunk(b"IEND", &[]));
+    v
+}
+
+/// GIF with two frames, image data in several sub-blocks, a two-sub-block comment, GCEs and a plain text extension.
+pub fn gif_multi() -> Vec<u8> {
+    let mut v = b"GIF89a".to_vec();
+    v.extend_from_slice(&[1, 0, 1, 0, 0x80, 0, 0, 0, 0, 0, 255, 255, 255]);
+    v.extend_from_slice(&[0x21, 0xFE, 0x03, b'o', b'n', b'e', 0x02, b't', b'w', 0x00]);
+    v.extend_from_slice(&[0x21, 0xF9, 0x04, 0x00, 0x01, 0x00, 0x00, 0x00]);
+    v.extend_from_slice(&[0x2C, 0, 0, 0, 0, 1, 0, 1, 0, 0, 0x02, 0x01, 0x4C, 0x01, 0x01, 0x00]);
+    v.extend_from_slice(&[0x21, 0x01, 0x0C, 0, 0, 0, 0, 1, 0, 1, 0, 1, 1, 0, 1, 0x02, b'h', b'i', 0x00]);
+    v.extend_from_slice(&[0x21, 0xF9, 0x04, 0x00, 0x02, 0x00, 0x00, 0x00]);
+    v.extend_from_slice(&[0x2C, 0, 0, 0, 0, 1, 0, 1, 0, 0, 0x02, 0x02, 0x4C, 0x01, 0x00, 0x3B]);
+    v
+}
+
+/// WAV with a LIST/INFO chunk holding an odd-sized sub-chunk and odd-sized sample data.
+pub fn wav_list() -> Vec<u8> {
+    let mut info = b"INFO".to_vec();
+    info.extend_from_slice(b"INAM");
+    info.extend_from_slice(&3u32.to_le_bytes());
+    info.extend_from_slice(b"abc\0");
+    riff(b"WAVE", &[(b"fmt ", vec![1, 0, 1, 0, 0x44, 0xAC, 0, 0, 0x88, 0x58, 1, 0, 2, 0, 16, 0]), (b"LIST", info), (b"data", vec![1, 2, 3, 4, 5, 6, 7])])
+}
+
+/// Structural-repetition variants that are NOT part of `all()` (so that checks iterating `all()` are unaffected);
+/// used by C01.
+pub fn structural() -> Vec<Asset> {
+    vec![
+        a("jpeg-segs", "image/jpeg", "jpg", jpeg_segs()),
+        a("png-multi-idat", "image/png", "png", png_multi_idat()),
+        a("gif-multi", "image/gif", "gif", gif_multi()),
+        a("wav-list", "audio/wav", "wav", wav_list()),
+    ]
+}
+
 pub fn a(name: &'static str, mime: &'static str, ext: &'static str, data: Vec<u8>) -> Asset {
     Asset { name, mime, ext, data }
 }
@@ -184,6 +270,7 @@ pub fn all() -> Vec<Asset> {
     v.extend(vec![
         a("jpeg-xmp", "image/jpeg", "jpg", jpeg_with_xmp()),
         a("jpeg-rst", "image/jpeg", "jpg", jpeg_with_rst()),
+        a("jpeg-rst-many", "image/jpeg", "jpg", jpeg_rst_many()),
         a("png-xmp", "image/png", "png", png_with_xmp()),
         a("gif-ext", "image/gif", "gif", gif_with_ext()),
         a("mp3-bare", "audio/mpeg", "mp3", mp3_bare()),
@@ -195,6 +282,7 @@ pub fn all() -> Vec<Asset> {
 pub fn by_name(name: &str) -> Asset {
     all()
         .into_iter()
+        .chain(structural())
         .find(|x| x.name == name)
         .unwrap_or_else(|| crate::ev::machinery(format!("no kit asset named {name}")))
 }
